@@ -137,6 +137,13 @@ func runOnce(run int, c cfg, found func(sig, detail string)) []Event {
 		return nil
 	}
 	addr := srv.Addr
+	// the client reaches the server through a proxy that makes every dial take 0..40 ms
+	px, err := newSlowProxy(addr, 40, c.Seed)
+	if err != nil {
+		found("harness", err.Error())
+		return nil
+	}
+	defer px.close()
 	var srvMu sync.Mutex
 	up := true
 	stopServer := func() {
@@ -183,7 +190,7 @@ func runOnce(run int, c cfg, found func(sig, detail string)) []Event {
 	earlyMu.Lock()
 	earlyOn, earlyEvs = true, nil
 	earlyMu.Unlock()
-	cl := mpx.NewClient(addr, mode, lg, opts)
+	cl := mpx.NewClient(px.addr(), mode, lg, opts)
 	ptr := reflect.ValueOf(cl).Pointer()
 	want := [4]byte{byte(ptr >> 24), byte(ptr >> 16), byte(ptr >> 8), byte(ptr)}
 	recMu.Lock()
